@@ -26,6 +26,7 @@ OpsBBox == {"bbox"}
 OpsMask == {"mask"}
 OpsRotate == {"rotate"}
 OpsModes == {"modes"}
+OpsToPolygon == {"to_polygon"}
 OpsCB == {"contains", "bbox"}
 N1 == {1}
 NQuick == {1, 2, 3, 5}
@@ -143,6 +144,8 @@ Apply ==
     [] op = "mask" -> LET s2 == Scale(shape, arg)  u2 == U0 * arg
                       IN [box |-> BoxOf(s2, u2).box, aligned |-> BoxOf(s2, u2).aligned, grid |-> MaskRef(s2, u2, arg)]
     [] op = "modes" -> [m \in 1..3 |-> Supported(shape, Modes[m])]
+    [] op = "to_polygon" -> IF shape.k = "rectangle" THEN [poly |-> ToPolygon2h(shape), scale |-> 2 * shape.d[3], win |-> Answers(shape)]
+                            ELSE [poly |-> <<>>, scale |-> 0, win |-> Answers(shape)]
     [] op = "rotate" -> [rot |-> Rotate(shape, arg[1], arg[2]), win |-> Answers(shape),
                          area |-> IF shape.k = "compound" THEN <<0, 0, 0>> ELSE Area(shape)]
 
@@ -188,6 +191,13 @@ InvMaskRange == Done /\ op = "mask" =>
 InvMaskTranslates == Done /\ op = "mask" /\ arg \in {1, 2} =>
                    LET s2 == Scale(shape, arg)  u2 == U0 * arg
                    IN MaskRef(Translate(s2, 3 * u2, -5 * u2), u2, arg) = res.grid
+(* the polygon of a rectangle's corners has the rectangle's membership (positions in the EDGE band of either excepted), and   *)
+(* every corner lies on the rectangle's boundary                                                                            *)
+InvToPolygon == Done /\ op = "to_polygon" /\ shape.k = "rectangle" =>
+                   LET m == res.scale IN
+                   /\ \A p \in WSet : LET a == Member(shape, p)  b == Member(res.poly, <<m * p[1], m * p[2]>>)
+                                       IN a = "EDGE" \/ b = "EDGE" \/ a = b
+                   /\ \A k \in 1..4 : Member(ScaleDirs(Scale(Plain(shape), m), 1), res.poly.vs[k]) = "EDGE"
 (* rotation: a rotated position is a member of the rotated region iff the original was; area kept *)
 InvRotate == Done /\ op = "rotate" =>
                    /\ \A p \in WSet : Member(res.rot, RotPoint(p, arg[1], arg[2])) = Member(shape, p)
